@@ -31,6 +31,25 @@ Theorem C10_product : forall axis_dims reg ad axes e,
                 exists v, In v l /\ fst v = f_name f)) e ls.
 Proof. exact get_metric_product. Qed.
 
+(* The combination used is the FIRST one, in the enumerated order (largest first block
+   first), all of whose blocks are registered with at least one variable; every earlier
+   one lacks a block.  The factors are the block-by-block choice over that one. *)
+Theorem C10_first : forall axis_dims reg ad axes e,
+  find_key axes reg = None ->
+  get_metric axis_dims reg ad axes = Ok e ->
+  exists pre c post ls,
+    axis_combinations axes = pre ++ c :: post /\
+    (forall c', In c' pre -> usable reg c' = false) /\ usable reg c = true /\
+    all_lookup reg c = Some ls /\ choose_blocks ad ls = Some e.
+Proof. exact get_metric_first. Qed.
+
+(* When no enumerated combination is usable nothing is made up: the request is refused. *)
+Theorem C10_refused : forall axis_dims reg ad axes,
+  find_key axes reg = None ->
+  (forall c, In c (axis_combinations axes) -> usable reg c = false) ->
+  exists err, get_metric axis_dims reg ad axes = Err err.
+Proof. exact get_metric_none_usable. Qed.
+
 (* On grids of up to three axes every enumerated combination (after the whole set) is a
    partition of the requested axes into non-empty blocks, largest block first. *)
 Theorem C10_partitions : forall axes,
@@ -41,6 +60,8 @@ Proof. exact combinations_are_partitions. Qed.
 Print Assumptions C10_exact.
 Print Assumptions C10_product.
 Print Assumptions C10_partitions.
+Print Assumptions C10_first.
+Print Assumptions C10_refused.
 
 (* Non-vacuity: dx at centre and left registered for {X}; a left-located array gets the
    left metric, an outer-located one the last registered, interpolated; {X,Y} without an
